@@ -174,14 +174,20 @@ def _harness_side(e):
     """True when a TypeError/AttributeError/NotImplementedError was raised *inside* the simulated MPI,
     the seams or the harness glue itself: the code under test used (or the harness relied on) an API
     the harness does not model.  That is a limitation of the harness, not a property violation."""
-    if e[0] not in ('TypeError', 'AttributeError', 'NotImplementedError', 'ImportError', 'ModuleNotFoundError'):
+    if e[0] in ('OracleFail', 'Skip', 'MPIUsageError'):
         return False
     frames = [ln for ln in e[2].splitlines() if ln.strip().startswith('File "')]
     if not frames:
         return False
     last = frames[-1]
-    return ('/sim/shim/' in last or '/sim/seams.py' in last or '/verif/checks/' in last or '/verif/refs/' in last
-            or '/sim/harness.py' in last)
+    if '/verif/checks/' in last or '/verif/refs/' in last or '/sim/harness.py' in last:
+        return True        # the harness glue itself failed (e.g. could not unpack what an API returned): any type
+    if '/sim/shim/' in last or '/sim/seams.py' in last:
+        # inside the simulated MPI / HDF5: errors that mimic what mpi4py or h5py raise for bad arguments are
+        # MPIUsageError (violations); any other TypeError/AttributeError means the simulation does not model it
+        return e[0] in ('TypeError', 'AttributeError', 'NotImplementedError', 'ImportError', 'ModuleNotFoundError',
+                        'KeyError', 'IndexError')
+    return False
 
 
 def _finish(res, w, results=None):
@@ -362,10 +368,20 @@ def _work(cid, tier, base_seed, indices, per_case_timeout):
         shutil.rmtree(scratch_root(), ignore_errors=True)
 
 
+def _progress_dir():
+    d = os.path.join(os.environ.get('VERIF_SCRATCH') or os.environ.get('TMPDIR') or '/tmp',
+                     'pygyro-verif-progress-%s' % os.environ.get('VERIF_BATCH_ID', '0'))
+    os.makedirs(d, exist_ok=True)
+    return d
+
+
 def _work_inner(cid, tier, base_seed, indices, per_case_timeout):
     mod = load_check(cid)
     out = []
+    pfile = os.path.join(_progress_dir(), str(os.getpid()))
     for i in indices:
+        with open(pfile, 'w') as fh:          # which case this worker is running (read by the parent if it dies)
+            fh.write(str(i))
         faulthandler.dump_traceback_later(per_case_timeout, exit=True)
         try:
             case = gen_case(mod, base_seed, tier, i)
@@ -388,6 +404,10 @@ def _work_inner(cid, tier, base_seed, indices, per_case_timeout):
         if res['status'] in ('violation', 'harness'):
             slim['detail'] = res.get('detail')
         out.append(slim)
+    try:
+        os.unlink(pfile)
+    except OSError:
+        pass
     return out
 
 
@@ -570,8 +590,13 @@ def confirm_replay(path, kind):
         else:
             env['PYTHONHASHSEED'] = hs
             env['VERIF_KEEP_HASHSEED'] = '1'
-        p = subprocess.run([os.path.join(VERIF, 'check'), '--replay', path],
-                           capture_output=True, text=True, env=env, timeout=600)
+        try:
+            p = subprocess.run([os.path.join(VERIF, 'check'), '--replay', path],
+                               capture_output=True, text=True, env=env, timeout=900)
+        except subprocess.TimeoutExpired:
+            env.pop('VERIF_KEEP_HASHSEED', None)
+            out = 'replay timed out'
+            continue
         env.pop('VERIF_KEEP_HASHSEED', None)
         out = p.stdout[-2000:] + p.stderr[-2000:]
         if p.returncode == 1 and ('kind=%s' % kind) in p.stdout:
@@ -590,55 +615,85 @@ def run_batch(cid, tier, base_seed, jobs=None, wall_cap=None, count=None):
     wall_cap = wall_cap or float(os.environ.get('VERIF_WALL') or 0) or mod.WALL[tier]
     per_case_timeout = int(os.environ.get('VERIF_CASE_TIMEOUT') or 0) or getattr(mod, 'CASE_TIMEOUT', 300)
     chunk = max(1, min(getattr(mod, 'CHUNK', 25), (n + jobs * 4 - 1) // (jobs * 4)))
-    chunks = [list(range(s, min(n, s + chunk))) for s in range(0, n, chunk)]
+    todo = [list(range(s, min(n, s + chunk))) for s in range(0, n, chunk)]
+    os.environ['VERIF_BATCH_ID'] = '%d-%d' % (os.getpid(), int(t0 * 1000) % 10 ** 9)
+    pdir = _progress_dir()
     results = []
     harness_errors = []
-    skipped_chunks = 0
+    hang_reported = False
+    deaths = 0
     ctx = multiprocessing.get_context('fork')
-    pool = cf.ProcessPoolExecutor(max_workers=jobs, mp_context=ctx)
-    futs = {}
-    try:
-        pending = list(chunks)
+    while todo and _real_time() - t0 <= wall_cap and deaths <= 3:
+        for f in os.listdir(pdir):
+            try:
+                os.unlink(os.path.join(pdir, f))
+            except OSError:
+                pass
+        pool = cf.ProcessPoolExecutor(max_workers=jobs, mp_context=ctx)
+        futs = {}
         inflight = set()
-
-        def submit_more():
-            while pending and len(inflight) < jobs * 2:
-                if _real_time() - t0 > wall_cap:
-                    return
-                c = pending.pop(0)
-                f = pool.submit(_work, cid, tier, base_seed, c, per_case_timeout)
-                futs[f] = c
-                inflight.add(f)
-        submit_more()
-        while inflight:
-            done, _ = cf.wait(inflight, timeout=per_case_timeout * 2 + 60,
-                              return_when=cf.FIRST_COMPLETED)
-            if not done:
-                harness_errors.append('timeout waiting for workers')
-                break
-            for f in done:
-                inflight.discard(f)
-                try:
-                    results.extend(f.result())
-                except Exception as e:   # noqa (BrokenProcessPool, worker death)
-                    harness_errors.append('worker failed on cases %r: %r' % (futs[f][:3], e))
-            if harness_errors:
-                break
+        died = False
+        try:
+            def submit_more():
+                while todo and len(inflight) < jobs * 2 and _real_time() - t0 <= wall_cap:
+                    c = todo.pop(0)
+                    f = pool.submit(_work, cid, tier, base_seed, c, per_case_timeout)
+                    futs[f] = c
+                    inflight.add(f)
             submit_more()
-        skipped_chunks = len(pending)
-    finally:
-        pool.shutdown(wait=False, cancel_futures=True)
-    if harness_errors:
-        # a worker died (watchdog after a rank spun without reaching the simulator, or a crash of the
-        # interpreter): find the culprit by running the cases that were in flight one by one
+            while inflight:
+                done, _ = cf.wait(inflight, timeout=per_case_timeout * 2 + 60, return_when=cf.FIRST_COMPLETED)
+                if not done:
+                    died = True
+                    break
+                for f in done:
+                    inflight.discard(f)
+                    try:
+                        results.extend(f.result())
+                        futs.pop(f)
+                    except Exception:   # noqa (BrokenProcessPool: a worker died)
+                        died = True
+                if died:
+                    break
+                submit_more()
+        finally:
+            pool.shutdown(wait=False, cancel_futures=True)
+        if not died:
+            break
+        # a worker died (watchdog after a rank spun without reaching the simulator, or a crash of the interpreter).
+        # The progress files name the case each worker was running: those are the suspects; everything else that
+        # was lost is simply run again in a fresh pool.
+        deaths += 1
         done_idx = {r['idx'] for r in results}
-        suspects = [i for f, c in futs.items() for i in c if i not in done_idx][:16]
-        recovered, hangs = _isolate(cid, tier, base_seed, suspects, per_case_timeout)
+        lost = sorted(i for c in futs.values() for i in c if i not in done_idx)
+        suspects = set()
+        for f in os.listdir(pdir):
+            try:
+                suspects.add(int(open(os.path.join(pdir, f)).read().strip()))
+            except (OSError, ValueError):
+                pass
+        suspects = sorted(s for s in suspects if s in lost) or lost[:jobs]
+        recovered, hangs = _isolate(cid, tier, base_seed, suspects, per_case_timeout, stop_at_first_hang=not hang_reported)
         results.extend(recovered)
-        if hangs or recovered:
-            harness_errors = [h for h in harness_errors if not h.startswith('worker failed')
-                              and not h.startswith('timeout waiting')]
         results.extend(hangs)
+        if any(x['kind'] == 'hang' for x in hangs):
+            hang_reported = True
+        settled = {r['idx'] for r in recovered} | {x['idx'] for x in hangs}
+        unsettled = [s for s in suspects if s not in settled]
+        rest = [i for i in lost if i not in settled and i not in unsettled]
+        for s in unsettled:            # further hanging suspects are not isolated again (each costs two timeouts)
+            results.append(dict(status='harness', prop=cid, kind='harness-not-isolated', idx=s, nontrivial=False,
+                                events=0, sim_time=0.0, digest='', order_digest='lost', rank_order_digest='',
+                                faults={}, probes={}, wall=0.0, finding_key=None, tape_len=0, key='lost-%d' % s,
+                                P=None, message='suspect of a worker death, not isolated', detail=None))
+        todo = [rest[k:k + chunk] for k in range(0, len(rest), chunk)] + todo
+    if deaths > 3:
+        harness_errors.append('workers died %d times; giving up' % deaths)
+    skipped_chunks = len(todo)
+    try:
+        shutil.rmtree(pdir, ignore_errors=True)
+    except Exception:   # noqa
+        pass
     results.sort(key=lambda r: r['idx'])
     return mod, results, harness_errors, skipped_chunks, _real_time() - t0, jobs
 
@@ -657,20 +712,18 @@ def _one_case_subprocess(cid, tier, base_seed, idx, timeout):
     return 'crash', (p.stdout[-500:] + p.stderr[-1500:])
 
 
-def _isolate(cid, tier, base_seed, suspects, per_case_timeout):
+def _isolate(cid, tier, base_seed, suspects, per_case_timeout, stop_at_first_hang=True):
     recovered, hangs = [], []
     t = min(per_case_timeout, 240)
     t = int(os.environ.get('VERIF_CASE_TIMEOUT') or 0) or t
     for i in suspects:
-        if any(h['kind'] == 'hang' for h in hangs):
+        if any(x['kind'] == 'hang' for x in hangs) or (not stop_at_first_hang and hangs):
             break                     # one confirmed hang is reported; isolating more costs a timeout each
         st, r = _one_case_subprocess(cid, tier, base_seed, i, t)
         if st == 'timeout':
             st, r = _one_case_subprocess(cid, tier, base_seed, i, t)
         if st == 'done':
             recovered.append(r)
-        elif st == 'timeout' and any(h['kind'] == 'hang' for h in hangs):
-            continue
         elif st == 'timeout':
             hangs.append(dict(status='violation', prop=cid, kind='hang', idx=i, nontrivial=True, events=0,
                               sim_time=0.0, digest='', order_digest='hang', faults={}, probes={}, wall=2.0 * t,
@@ -936,7 +989,7 @@ def main_check(cid, tier, base_seed, jobs=None):
               cov['skipped_cases'], n_inconclusive, len(viol), len(viol) - len(new_viol),
               cov['distinct_interleavings'], wall, jobs))
     if exit_code == 0:
-        if herr or (results and n_inconclusive > max(1, len(results) // 100)) or not results:
+        if herr or n_inconclusive > 0 or not results:
             for h in herr[:5]:
                 print('HARNESS-ERROR: ' + h)
             for r in harness[:3]:
